@@ -195,18 +195,20 @@ namespace BitSerializer::Convert::Utf
 						return UtfEncodingResult(UtfEncodingErrorCode::UnexpectedEnd, startTailPos, invalidSequencesCount);
 					}
 
+					const auto nextTail = static_cast<uint8_t>(*in);
+					if ((nextTail & 0b11000000) != 0b10000000)
+					{
+						// When tail has bad signature
+						isWrongSeq = true;
+						// It should not be consumed when it is a start of the next sequence (ASCII character or valid lead byte)
+						if (nextTail < 0x80 || (nextTail >= 0xC2 && nextTail <= 0xF4)) {
+							break;
+						}
+					}
 					if (!isWrongSeq)
 					{
-						const auto nextTail = static_cast<uint8_t>(*in);
-						if ((nextTail & 0b11000000) == 0b10000000)
-						{
-							sym <<= 6;
-							sym |= nextTail & 0b00111111;
-						}
-						// When tail has bad signature
-						else {
-							isWrongSeq = true;
-						}
+						sym <<= 6;
+						sym |= nextTail & 0b00111111;
 					}
 					++in;
 				}
